@@ -602,6 +602,46 @@ func C36(c *Ctx) {
 		}
 		c.Decide(geq >= 2, r3, key(fn, "id>=pointer→false"), fn.Pos(), geq+1, "both pointer forms refuse removal with >=", fmt.Sprintf("expected two `id >= pointer ⇒ false` tests (Segment and SegmentIndex), found %d", geq))
 		need(c, r3, fn, false, "RaftPointerSnapshot", Named("manifest.(*Manager).RaftPointerSnapshot"), 1)
+		// a group without a truncation point (SegmentIndex == 0) still needs every raft record it wrote:
+		// the per-segment raft record count must be able to veto the removal (a `return false` is
+		// reachable on the RaftRecords() > 0 edge), not merely be logged
+		veto := false
+		for _, rr := range Calls(fn, false, Named("wal.(RecordMetrics).RaftRecords", "wal.(*RecordMetrics).RaftRecords", "metrics.(WALRecordMetrics).RaftRecords")) {
+			call, _ := rr.(*ssa.Call)
+			if call == nil {
+				continue
+			}
+			for _, b := range fn.Blocks {
+				ifi := ifOf(b)
+				if ifi == nil {
+					continue
+				}
+				bo, ok := ifi.Cond.(*ssa.BinOp)
+				if !ok || Unwrap(bo.X) != ssa.Value(call) {
+					continue
+				}
+				// from the "has raft records" edge some return false must be reachable
+				seen := map[*ssa.BasicBlock]bool{}
+				var walk func(x *ssa.BasicBlock)
+				walk = func(x *ssa.BasicBlock) {
+					if seen[x] {
+						return
+					}
+					seen[x] = true
+					if r, ok := x.Instrs[len(x.Instrs)-1].(*ssa.Return); ok {
+						if cst, ok := r.Results[0].(*ssa.Const); ok && cst.Value != nil && cst.Value.String() == "false" {
+							veto = true
+						}
+						return
+					}
+					for _, s2 := range x.Succs {
+						walk(s2)
+					}
+				}
+				walk(b.Succs[0])
+			}
+		}
+		c.Decide(veto, r3, key(fn, "raft-records-veto-when-untruncated"), fn.Pos(), 2, "a segment with raft records is kept while some group has no truncation point", "canRemoveWalSegment only logs that a segment still holds raft records: for a group that never truncated its log (SegmentIndex == 0) every segment older than its latest record is removed although it holds live log entries, and the raft storage cannot be reopened (missing log entry)")
 	}
 }
 
